@@ -40,6 +40,7 @@ type Engine struct {
 	mutableGlobal map[*ssa.Global]bool
 	lockClasses   map[string]bool // "pkg.Type.mutexPath" -> sections must be non-blocking
 	structInvs    []*StructInv
+	solverSem     chan struct{} // bounds the number of concurrently running solver processes started from within one function
 	owned         map[string]string // "pkg.Type" -> ghost field that must be 1 to touch the object
 	views         map[string]map[string]*Contract
 	viewList      []*Contract
@@ -77,7 +78,7 @@ func loadEngine(repoDir string, pkgPaths []string) (*Engine, error) {
 	prog.Build()
 	e := &Engine{prog: prog, pkgs: pkgs, contracts: map[string]*Contract{}, preds: map[string]*Pred{}, ghosts: map[string]*GhostFunc{},
 		droppedCand: map[string]map[string]bool{}, files: map[*token.File]*ast.File{}, mutableGlobal: map[*ssa.Global]bool{},
-		funcs: map[string]*ssa.Function{}, repoDir: repoDir, timeoutMs: 10000}
+		funcs: map[string]*ssa.Function{}, repoDir: repoDir, timeoutMs: 10000, solverSem: make(chan struct{}, 16)}
 	packages.Visit(pkgs, nil, func(p *packages.Package) {
 		if e.fset == nil && p.Fset != nil {
 			e.fset = p.Fset
@@ -98,6 +99,11 @@ func loadEngine(repoDir string, pkgPaths []string) (*Engine, error) {
 			return nil, err
 		}
 	}
+	for fn := range ssautil.AllFunctions(prog) {
+		if fn.Pkg != nil && strings.HasPrefix(fn.Pkg.Pkg.Path(), repoMod) || fn.Parent() != nil {
+			e.funcs[fn.String()] = fn
+		}
+	}
 	if err := e.finishContracts(); err != nil {
 		return nil, err
 	}
@@ -107,12 +113,8 @@ func loadEngine(repoDir string, pkgPaths []string) (*Engine, error) {
 	if err := e.resolveStructInvs(); err != nil {
 		return nil, err
 	}
-	for fn := range ssautil.AllFunctions(prog) {
-		if fn.Pkg != nil && strings.HasPrefix(fn.Pkg.Pkg.Path(), repoMod) || fn.Parent() != nil {
-			e.funcs[fn.String()] = fn
-		}
-	}
 	e.findMutableGlobals()
+	e.inferEffects()
 	return e, nil
 }
 
@@ -521,8 +523,53 @@ func (e *Engine) solve(fc *FnCtx) {
 	if wall > 10*time.Minute {
 		wall = 10 * time.Minute
 	}
-	out, _ := e.runSolver(solvers[0], script, tag, wall)
-	rs := parseResults(out, len(order))
+	// large functions: contiguous chunks of the obligation list are checked by
+	// separate solver processes (each sees every earlier obligation as an assumption)
+	nchunk := len(order) / 12
+	if nchunk > 8 {
+		nchunk = 8
+	}
+	if nchunk < 1 {
+		nchunk = 1
+	}
+	rs := make([]string, len(order))
+	var lastOut string
+	if nchunk == 1 {
+		out, _ := e.runSolver(solvers[0], script, tag, wall)
+		copy(rs, parseResults(out, len(order)))
+		lastOut = out
+	} else {
+		var wg sync.WaitGroup
+		var mu sync.Mutex
+		per := (len(order) + nchunk - 1) / nchunk
+		for c := 0; c < nchunk; c++ {
+			lo, hi := c*per, (c+1)*per
+			if hi > len(order) {
+				hi = len(order)
+			}
+			if lo >= hi {
+				continue
+			}
+			wg.Add(1)
+			go func(c, lo, hi int) {
+				defer wg.Done()
+				e.solverSem <- struct{}{}
+				defer func() { <-e.solverSem }()
+				only := map[*Obligation]bool{}
+				for _, o := range order[lo:hi] {
+					only[o] = true
+				}
+				sc, ord := fc.sc.render(e.timeoutMs, only)
+				out, _ := e.runSolver(solvers[0], sc, fmt.Sprintf("%s_c%d", tag, c), wall)
+				r := parseResults(out, len(ord))
+				mu.Lock()
+				copy(rs[lo:hi], r)
+				lastOut = out
+				mu.Unlock()
+			}(c, lo, hi)
+		}
+		wg.Wait()
+	}
 	el := time.Since(t0).Seconds()
 	for i, o := range order {
 		o.Backend = solvers[0].name
@@ -530,7 +577,7 @@ func (e *Engine) solve(fc *FnCtx) {
 		o.Status = rs[i]
 		if o.Status == "" {
 			o.Status = "unknown"
-			o.Output = tail(out, 400)
+			o.Output = tail(lastOut, 400)
 		}
 		if o.Cover {
 			// cover obligations pass when satisfiable
@@ -564,11 +611,25 @@ func (e *Engine) solve(fc *FnCtx) {
 			}
 		}
 	}
-	// second opinions for anything not proved, one obligation at a time
-	for _, o := range order {
+	// second opinions for anything not proved, one obligation at a time (in parallel)
+	var rwg sync.WaitGroup
+	for ri, o := range order {
 		if o.Status == "unsat" {
 			continue
 		}
+		rwg.Add(1)
+		go func(ri int, o *Obligation) {
+			defer rwg.Done()
+			e.solverSem <- struct{}{}
+			defer func() { <-e.solverSem }()
+			e.secondOpinion(fc, o, tag, ri)
+		}(ri, o)
+	}
+	rwg.Wait()
+}
+
+func (e *Engine) secondOpinion(fc *FnCtx, o *Obligation, tag string, ri int) {
+	{
 		first := o.Status
 		single := fc.sc.renderSingle(o, false)
 		var sat bool
@@ -579,7 +640,7 @@ func (e *Engine) solve(fc *FnCtx) {
 			if first == "sat" {
 				s2 = fc.sc.renderSingle(o, true)
 			}
-			tg := tag + "_1"
+			tg := fmt.Sprintf("%s_r%d", tag, ri)
 			if e.debug != "" && strings.Contains(o.Name, e.debug) {
 				tg = fmt.Sprintf("%s_dbg%d_%s", tag, tagID(o.Name), sv.name)
 				fmt.Printf("debug: %s -> %s/%s.smt2\n", o.Name, e.workDir, tg)
